@@ -84,7 +84,9 @@ RULE = ("seeded lifecycle histories: 0-2 startup handlers (ok / sleeping / tempo
         "handler failures, deletion and re-creation of the served CRD (HTTP 404 in the watcher: not a failure; watched again), "
         "login_fail (HTTP 401 invalidates the credentials, the re-login fails for good: the core task dies; without peering), "
         "worker_fail_depletion (a poisoned event queued behind a handler in flight, then a stop: the worker fails while its "
-        "watcher depletes). A case is distinct by (trigger kind, phase, startup/cleanup outcome shapes, daemon modes, in-flight, "
+        "watcher depletes), early_stop_peering (the API server applies a peering PATCH at once but answers 1/8-1/2 s later; the "
+        "stop comes 4-16 ticks after startup, while the FIRST keep-alive is in flight: the record must still be withdrawn). "
+        "A case is distinct by (trigger kind, phase, startup/cleanup outcome shapes, daemon modes, in-flight, "
         "peering); non-trivial when a trigger fires.")
 TRUSTED = ["harness/sim (virtual-time loop, fake API server, scripted handlers) and harness/props/sim_c20.py (attribute-level "
            "instrumentation: each log entry is written inside the atomic segment it names)",
@@ -227,12 +229,16 @@ def extract(ctx: Ctx) -> None:
         f = _find_def(rtree, name)
         waits = [c for c in _calls(f, "wait") if any(k.arg == "return_when" and "FIRST_COMPLETED" in ast.unparse(k.value)
                                                       for k in c.keywords)]
-        root_awaits_core = root_awaits_core or (bool(waits) and bool(_calls(f, "reraise")))
+        # ... and re-raises: `reraise(done)`, or `await` of the future popped from `done`
+        reraises_core = bool(_calls(f, "reraise")) or any(isinstance(n, ast.Await) and isinstance(n.value, ast.Name) for n in ast.walk(f))
+        root_awaits_core = root_awaits_core or (bool(waits) and reraises_core)
+    checker_awaits_core = "stop_flag_checker" in awaiting
     cleanup_lines = [c.lineno for c in _calls(sca, "run_activity") if "CLEANUP" in ast.unparse(c)]
     core_reraise = [c.lineno for c in _calls(sca, "reraise") if c.args and "core" in ast.unparse(c.args[0])]
     if not cleanup_lines:
         raise ExtractError("startup_cleanup_activities runs no cleanup activity: unknown shape")
     core_after_cleanup = bool(core_reraise) and all(l > max(cleanup_lines) for l in core_reraise)
+    ctx.extra["core_awaited_by_stop_flag_checker"] = checker_awaits_core and root_awaits_core
     facts = {"rootTaskAwaitsCore": root_awaits_core, "coreErrorsAfterCleanup": core_after_cleanup,
              "attachesDoneCallback": attaches, "callbackCancelsOrchestrator": cancels, "callbackIgnoresNotFound": ignores404,
              "reraisesTaskError": reraises, "doneTasksAreRedundant": done_redundant, "scanGathers": gathers,
@@ -269,7 +275,7 @@ def script_duration(h: dict) -> float:
 def graces(sc: dict) -> dict:
     st = sc.get("settings", {})
     e = float(st.get("queueing.exit_timeout", 2.0))
-    w = (sum(BACKOFFS) + (len(BACKOFFS) + 1) * 2 * LAT) if sc.get("peering") else 0.0
+    w = (sum(BACKOFFS) + (len(BACKOFFS) + 1) * (2 * LAT + float(sc.get("peering_response_latency") or 0.0))) if sc.get("peering") else 0.0
     c = sum(script_duration(h) for h in sc.get("handlers", []) if h["kind"] == "cleanup")
     d = max([float((h.get("opts") or {}).get("cancellation_backoff") or 0) + float((h.get("opts") or {}).get("cancellation_timeout") or 0)
              for h in sc.get("handlers", []) if h["kind"] == "daemon"] or [0.0])
@@ -308,8 +314,13 @@ ROOTS = {"stopFlag", "ultimate", "startupCleanup", "coreWatcher", "daemonKiller"
          "admServer", "resObserver", "nsObserver", "orchestrator"}
 
 
-def abstract(obs: dict, sc: dict | None = None) -> list[list]:
+def abstract(obs: dict, sc: dict | None = None, checker_awaits_core: bool = False) -> list[list]:
+    """`checker_awaits_core`: in this tree the stop-flag checker is the root task that awaits the core tasks (no task of its
+    own): when it ends BECAUSE OF a core task (failed; or done with no flag set while run_tasks still waits) it plays the model's
+    `coreWatcher`, and the model's `stopFlag` is the phantom that ends when run_tasks cancels the root tasks."""
     log = obs["log"]
+    stopping_begun = False
+    checker_was_watcher = False
     out: list[list] = []
     coop = coop_daemons(sc or {})
     # outcomes of the withdrawal PATCHes, in the order of their requests
@@ -402,7 +413,11 @@ def abstract(obs: dict, sc: dict | None = None) -> list[list]:
             put("coreEnter") if a[0] == "core" else put("enter", a[0])
         elif kind == "rootEnd":
             ended_roots.add(a[0])
-            put("coreEnd", a[1]) if a[0] == "core" else put("rootEnd", a[0], a[1])
+            if checker_awaits_core and a[0] == "stopFlag" and (a[1] == "failed" or (not flag_set and not stopping_begun)):
+                checker_was_watcher = True
+                put("rootEnd", "coreWatcher", a[1])
+            else:
+                put("coreEnd", a[1]) if a[0] == "core" else put("rootEnd", a[0], a[1])
         elif kind == "orchStopSubsBegin":
             if not a[1]:
                 put("rootStopping", "orchestrator", root_end.get("orchestrator") == "failed")
@@ -463,7 +478,10 @@ def abstract(obs: dict, sc: dict | None = None) -> list[list]:
                 put("act", task("worker", a[-1]))
         elif kind == "rtStopRootsBegin":
             put("rtCancel" if a[1] else "rtStopRoots")
-            if not has_cw:
+            stopping_begun = True
+            if checker_was_watcher:
+                put("rootEnd", "stopFlag", "done")
+            elif not has_cw:
                 put("rootEnd", "coreWatcher", "cancelled")
         elif kind == "rtHungWaitBegin":
             put("rtHungWait")
@@ -763,7 +781,7 @@ DAEMON_SHAPES = [
 ]
 TRIGGERS = ["flag", "flag", "cancel", "cancel", "watch_error_kex", "watch_error_crd", "watch_error_peering", "poison",
             "memo_poison", "discovery_500_initial", "discovery_500_rescan", "pinger_500", "startup_fail", "cleanup_fail",
-            "flag", "watch_error_kex", "crd_gone", "login_fail", "worker_fail_depletion"]
+            "flag", "watch_error_kex", "crd_gone", "login_fail", "worker_fail_depletion", "early_stop_peering"]
 PHASES = ["startup", "startup_end", "discovery", "spawning", "steady", "inflight"]
 
 
@@ -771,6 +789,8 @@ def gen_history(rng: Any, i: int, force: dict | None = None) -> dict:
     force = force or {}
     trigger = force.get("trigger") or rng.choice(TRIGGERS)
     peering = force.get("peering", rng.random() < 0.4 or trigger in ("watch_error_peering", "pinger_500"))
+    if trigger == "early_stop_peering":
+        peering = True
     if trigger == "login_fail":
         # with peering the dead vault also blocks the withdrawal PATCH for ever: such an operator cannot even be stopped
         # gracefully (seen: still running 64 s after the stop flag) — a non-cooperative run, outside the traces the model accepts
@@ -830,6 +850,8 @@ def gen_history(rng: Any, i: int, force: dict | None = None) -> dict:
         phase = rng.choice(["spawning", "steady", "inflight"])
     if trigger == "worker_fail_depletion":
         phase = "steady"
+    if trigger == "early_stop_peering":
+        phase = "spawning"
     if phase == "startup" and s_dur == 0:
         phase = "startup_end"
     t = {"startup": (rng.randrange(1, max(2, ticks(s_dur))) / TPS) if s_dur else 0.0,
@@ -880,6 +902,11 @@ def gen_history(rng: Any, i: int, force: dict | None = None) -> dict:
         ops.append([t, "crd_delete"])
         ops.append([t + gap, "crd_create"])
         ops.append([t + gap + 2.0, "create", "late", 5])
+    elif trigger == "early_stop_peering":
+        # a stop within the first moments: the first keep-alive PATCH is applied by the API server but not yet answered
+        sc["peering_response_latency"] = rng.choice([8 / TPS, 0.25, 0.5, 0.5])
+        t = s_dur + rng.choice([4, 6, 8, 10, 12, 16]) / TPS
+        ops.append([t, rng.choice(["flag", "flag", "cancel"])])
     elif trigger == "login_fail":
         ops.append([t, "unauthorized"])
         ops.append([t + rng.choice([1 / TPS, 0.5]), "edit", objects[0]["name"], 20])
@@ -1001,7 +1028,8 @@ def _evaluate(ctx: Ctx, histories: list[dict], tie: bool = True) -> None:
     ctx.extra["model_variant"] = ("headCfg (fixed := true: failed ensemble task -> orchestrator; coreWatched := "
                                   f"{str(core_watched).lower()}: " + ("a root task awaits the core tasks)" if core_watched else
                                                                       "nobody awaits the core task, finding C20-F6)"))
-    reqs = [["C20.trace", model_cfg(sc, fixed, core_watched), abstract(obs, sc)] for sc, obs in zip(histories, obs_list)]
+    swap = bool(ctx.extra.get("core_awaited_by_stop_flag_checker"))
+    reqs = [["C20.trace", model_cfg(sc, fixed, core_watched), abstract(obs, sc, swap)] for sc, obs in zip(histories, obs_list)]
     try:
         outs = ctx.driver.ask(reqs)
     except leanio.LeanError as e:
